@@ -119,15 +119,18 @@ let server_main () =
         let dialect = next () in
         let bound = next_int () in
         let schs = parse_schs () in
-        let scen = match next () with
-          | "sess" ->
-            let n = next_int () in
-            ScSess (times n (fun () ->
+        let parse_body () =
+          let n = next_int () in
+          times n (fun () ->
               let op = next () in let s = next_int () in let t = next_int () in
               match op with
               | "ct" -> SCt (opt s, n_of_int t) | "dt" -> SDt (opt s, n_of_int t)
               | "cs" -> SCs (n_of_int s, false) | "ds" -> SDs (n_of_int s) | "bad" -> SBadS
-              | o -> failwith ("sstmt " ^ o)))
+              | o -> failwith ("sstmt " ^ o)) in
+        let body2 = ref None in
+        let scen = match next () with
+          | "sess" -> ScSess (parse_body ())
+          | "twice" -> let b1 = parse_body () in body2 := Some (parse_body ()); ScSess b1
           | "norms" -> (match parse_schs () with [d] -> ScNormS d.s_tabs | _ -> failwith "norms")
           | "normr" -> ScNormR (parse_schs ())
           | s -> failwith ("scenario " ^ s) in
@@ -135,30 +138,43 @@ let server_main () =
         let positions = times nf (fun () -> nat_of_int (next_int ())) in
         let total = 400 in
         let fs = fault_stream positions (nat_of_int total) in
-        let r =
+        let pg_cur = if bound < 0 then Some N0 else opt bound in
+        let (r, r2) = match !body2, scen with
+          | Some b2, ScSess b1 ->
+            let (a, b) =
+              if dialect = "p" then run_twice_pg (opt bound) b1 b2 { sv_schemas = schs; sv_cur = pg_cur } fs
+              else run_twice b1 b2 { sv_schemas = schs; sv_cur = opt bound } fs in
+            (a, Some b)
+          | _ -> ((
           if dialect = "p" then
             (* PostgreSQL: Driver.schema = the bound schema; CURRENT_SCHEMA() = it, or "public" (id 0) *)
             run_scenario_pg (opt bound) scen { sv_schemas = schs; sv_cur = (if bound < 0 then Some N0 else opt bound) } fs
-          else run_scenario scen { sv_schemas = schs; sv_cur = opt bound } fs in
+          else run_scenario scen { sv_schemas = schs; sv_cur = opt bound } fs), None) in
         let is_sess = (match scen with ScSess _ -> true | _ -> false) in
-        let os = match r.r_out with
+        let out_s (r : sresult) = match r.r_out with
           | SOk -> "ok" | SRefused -> "refused" | SErr -> "err"
           (* Normalize* return Snapshot's error like any other: the caller cannot tell them apart *)
           | SSnapErr -> if is_sess then "snaperr" else "err"
           | SFail k -> Printf.sprintf "fail:%d" (int_of_nat k) in
-        let rerr = if is_sess && r.r_ran && not r.r_restored then 1 else 0 in
-        let calls = total - Stdlib.List.length r.r_fs in
+        let rerr_s (r : sresult) = if is_sess && r.r_ran && not r.r_restored then 1 else 0 in
+        let os = out_s r in
+        let rerr = rerr_s r in
+        let last = (match r2 with Some b -> b | None -> r) in
+        let calls = total - Stdlib.List.length last.r_fs in
         let ev = function
           | ECt (s, t) -> Printf.sprintf "ct:%d.%d" (int_of_n s) (int_of_n t)
           | EDt (s, t) -> Printf.sprintf "dt:%d.%d" (int_of_n s) (int_of_n t)
           | ECs s -> Printf.sprintf "cs:%d" (int_of_n s)
           | EDs s -> Printf.sprintf "ds:%d" (int_of_n s) in
-        let tr = if r.r_trace = [] then "-" else String.concat "," (Stdlib.List.map ev r.r_trace) in
-        let fin = if r.r_srv.sv_schemas = [] then "-" else
+        let all_trace = r.r_trace @ (match r2 with Some b -> b.r_trace | None -> []) in
+        let tr = if all_trace = [] then "-" else String.concat "," (Stdlib.List.map ev all_trace) in
+        let fin = if last.r_srv.sv_schemas = [] then "-" else
           String.concat ";" (Stdlib.List.map (fun s ->
             Printf.sprintf "%d:%s" (int_of_n s.s_id) (String.concat "," (Stdlib.List.map (fun t -> string_of_int (int_of_n t)) s.s_tabs)))
-            r.r_srv.sv_schemas) in
-        Printf.printf "%s out=%s rerr=%d calls=%d trace=%s final=%s\n" id os rerr calls tr fin
+            last.r_srv.sv_schemas) in
+        (match r2 with
+         | None -> Printf.printf "%s out=%s rerr=%d calls=%d trace=%s final=%s\n" id os rerr calls tr fin
+         | Some b -> Printf.printf "%s out=%s rerr=%d calls=%d trace=%s final=%s out2=%s rerr2=%d\n" id os rerr calls tr fin (out_s b) (rerr_s b))
       end
     done
   with End_of_file -> ())
